@@ -135,7 +135,7 @@ class Prop:
     id = "C14"
     level = "exploration"
     engine = "VT (synchronous execution on the subscribing thread, work-budget watchdog)"
-    quick_runs = 6000
+    quick_runs = 12000
     thorough_runs = 200000
     run_wall = 10.0
     hang_rule = "did-not-return"
